@@ -4,10 +4,10 @@
 (* The driver writes each sheet into a real workbook, calls the real          *)
 (* read_excel and compares the projected records with `expected` by equality. *)
 EXTENDS MC_ExcelReader
-Cases == UNION {{[headers |-> s.headers, rows |-> s.rows, expected |-> Expected(s),
+Cases == UNION {{[headers |-> s.headers, rows |-> s.rows, opt |-> s.opt, expected |-> Expected(s),
                   lay |-> g.lay, how |-> g.how] : s \in MCGroupSheets(g)} : g \in MCGroups}
 ASSUME JsonSerialize(IOEnv.OUT_FILE, SX!SetToSeq(Cases))
 CInit == /\ grp = 0 /\ sheet = 0 /\ cl = 0 /\ im = 0 /\ pc = 0 /\ ri = 0 /\ ci = 0
-         /\ rec = 0 /\ out = 0 /\ err = 0
+         /\ rec = 0 /\ vflag = 0 /\ out = 0 /\ err = 0
 CNext == UNCHANGED vars
 =============================================================================
